@@ -377,6 +377,32 @@ def script_of(case):
     return "x='%s'; " % XVAL + ("set -C; " if case["nc"] else "") + s
 
 
+def run_group(argv, timeout, **kw):
+    """run a child in its own session/process group; the whole group is killed on timeout and once the child is done
+    (nothing a generated script started may outlive its case). -> (returncode or "timeout", stdout, stderr)"""
+    import signal
+    p = subprocess.Popen(argv, start_new_session=True, close_fds=True, **kw)
+    try:
+        out, err = p.communicate(timeout=timeout)
+        rc = p.returncode
+    except subprocess.TimeoutExpired:
+        rc = "timeout"
+        try:
+            os.killpg(p.pid, signal.SIGKILL)
+        except (ProcessLookupError, PermissionError):
+            pass
+        try:
+            out, err = p.communicate(timeout=5)
+        except subprocess.TimeoutExpired:
+            out, err = b"", b""
+    finally:
+        try:
+            os.killpg(p.pid, signal.SIGKILL)
+        except (ProcessLookupError, PermissionError):
+            pass
+    return rc, out, err
+
+
 def run_shell(shell_argv, case, d, bindir, executable=None):
     """run one case in directory d; returns dict name -> (exists, bytes)"""
     os.makedirs(d, exist_ok=True)
@@ -390,12 +416,8 @@ def run_shell(shell_argv, case, d, bindir, executable=None):
     status = None
     with open(os.path.join(obs, "in"), "rb") as fi, open(os.path.join(obs, "out"), "wb") as fo, \
             open(os.path.join(obs, "err"), "wb") as fe:
-        try:
-            p = subprocess.run(shell_argv + ["-c", script_of(case)], stdin=fi, stdout=fo, stderr=fe, cwd=d, env=env,
-                               timeout=20, close_fds=True, executable=executable)
-            status = p.returncode
-        except subprocess.TimeoutExpired:
-            status = "timeout"
+        status, _, _ = run_group(shell_argv + ["-c", script_of(case)], 20, stdin=fi, stdout=fo, stderr=fe, cwd=d, env=env,
+                                 executable=executable)
     res = {}
     for name, path in (("out", os.path.join(obs, "out")), ("err", os.path.join(obs, "err")),
                        ("a", os.path.join(d, "a")), ("b", os.path.join(d, "b")), ("c", os.path.join(d, "c"))):
@@ -639,17 +661,26 @@ def strip_tabs(line):
     return line.lstrip("\t")
 
 
+TABBY_LINES = ["\ttext", "\t\tdeep", "\t", "\tEOF x", "\t$x", "\t two", "plain", "\tEND.", " \tmixed"]
+
+
 def gen_here_case(rng):
-    ndocs = rng.choice([1, 1, 1, 2, 2, 3])
+    # 40% of the cases: several documents on one line whose operators DIFFER (<< next to <<-), bodies and end tags
+    # indented with tabs - which document's operator governs tab stripping is only visible there
+    mixed = rng.random() < 0.4
+    ndocs = rng.choice([2, 2, 3]) if mixed else rng.choice([1, 1, 1, 2, 2, 3])
+    first_strip = rng.random() < 0.5
     docs = []
     words = []
     line = rng.choice(["cat", "cmd -x", "a b"])
     text = ""
-    for _ in range(ndocs):
+    for k in range(ndocs):
         d = rng.choice(DELIMS)
         tagtok, quoted = quote_delim(rng, d)
-        strip = rng.random() < 0.4
+        strip = (first_strip if k % 2 == 0 else not first_strip) if mixed else rng.random() < 0.4
         docs.append((strip, tagtok))
+        if k > 0 and rng.random() < 0.4:
+            line += " ; cat"                      # the next document belongs to another command of the same line
         line += " <<" + ("-" if strip else "") + rng.choice(["", " "]) + tagtok
         if rng.random() < 0.3:
             line += " w%d" % len(docs)
@@ -657,8 +688,10 @@ def gen_here_case(rng):
         nl = rng.randrange(0, 5)
         early = rng.random() < 0.15
         lines = []
+        if mixed:
+            nl = rng.randrange(1, 5)
         for _ in range(nl):
-            l = rng.choice(BODY_LINES)
+            l = rng.choice(TABBY_LINES) if mixed and rng.random() < 0.7 else rng.choice(BODY_LINES)
             eff = strip_tabs(l) if strip else l
             if eff == d and not early:
                 l = l + "x"
@@ -671,7 +704,7 @@ def gen_here_case(rng):
             text += "".join(rng.choice(SAFE_REST[:4]) + "\n" for _ in lines[k + 1:])
             text += ("\t" if strip and rng.random() < 0.5 else "") + d + "x\n" if False else ""
             continue
-        text += ("\t" * rng.randrange(0, 3) if strip else "") + d + "\n"
+        text += ("\t" * (rng.randrange(1, 3) if mixed else rng.randrange(0, 3)) if strip else "") + d + "\n"
     rest = "".join(rng.choice(SAFE_REST[:4]) + "\n" for _ in range(rng.randrange(0, 3)))
     mode = rng.random()
     if mode < 0.08 and text.endswith("\n"):
@@ -766,15 +799,17 @@ def eval_here_cases(ctx, cases):
 
 def gen_hdproc_case(rng):
     """-> dict(script, expected stdout, bsnl class?)"""
-    def one_doc(tag):
-        lines = [rng.choice(HLINES_BSNL) for _ in range(rng.randrange(0, 5))]
-        strip = rng.random() < 0.4
+    def one_doc(tag, strip=None, tabby=False):
+        lines = [rng.choice(TABBY_LINES[:4] + ["\ttab", "plain"]) if tabby and rng.random() < 0.7 else rng.choice(HLINES_BSNL)
+                 for _ in range(rng.randrange(1, 5) if tabby else rng.randrange(0, 5))]
+        if strip is None:
+            strip = rng.random() < 0.4
         mode = rng.choice(["sq", "bs", "dq", "plain", "plain", "plain"])
         tagtok = {"sq": "'%s'", "bs": "\\%s", "dq": '"%s"', "plain": "%s"}[mode] % tag
         lines = [l + "x" if (l.lstrip("\t") if strip else l) == tag else l for l in lines]
         if mode == "plain" and lines and lines[-1].endswith("\\") and not lines[-1].endswith("\\\\"):
             lines.append("tail")          # a continuation must not swallow the delimiter line
-        raw = "".join(l + "\n" for l in lines) + ("\t" if strip and rng.random() < 0.5 else "") + tag + "\n"
+        raw = "".join(l + "\n" for l in lines) + ("\t" if strip and (tabby or rng.random() < 0.5) else "") + tag + "\n"
         doc = "".join((l.lstrip("\t") if strip else l) + "\n" for l in lines)
         bs = False
         if mode == "plain":
@@ -782,8 +817,11 @@ def gen_hdproc_case(rng):
             doc = expand_doc(doc)
         return "<<" + ("-" if strip else "") + tagtok, raw, doc, bs
     special = lambda raw: any(ch in raw for ch in '"()')
-    shape = rng.choice(["plain", "subst", "func", "two", "two_subst"])
-    op1, raw1, doc1, bs1 = one_doc("EOF")
+    shape = rng.choice(["plain", "subst", "func", "two", "two", "two_subst", "two_cmds", "two_cmds"])
+    # two documents on one line: mostly with DIFFERENT operators (<< and <<-) and tab-indented bodies / end tags
+    mixed = shape.startswith("two") and rng.random() < 0.7
+    s1 = rng.random() < 0.5 if mixed else None
+    op1, raw1, doc1, bs1 = one_doc("EOF", s1, mixed)
     if shape == "plain":
         return {"script": "cat %s\n%s" % (op1, raw1), "expected": doc1, "bsnl": bs1, "shape": shape}
     if shape == "subst":
@@ -791,7 +829,10 @@ def gen_hdproc_case(rng):
                 "bsnl": bs1, "shape": shape, "subst_special": special(raw1)}
     if shape == "func":
         return {"script": "f() { cat %s\n%s}; f; f" % (op1, raw1), "expected": doc1 + doc1, "bsnl": bs1, "shape": shape}
-    op2, raw2, doc2, bs2 = one_doc("E2")
+    op2, raw2, doc2, bs2 = one_doc("E2", (not s1) if mixed else None, mixed)
+    if shape == "two_cmds":
+        return {"script": "cat %s; cat %s\n%s%s" % (op1, op2, raw1, raw2), "expected": doc1 + doc2,
+                "bsnl": bs1 or bs2, "shape": shape}
     if shape == "two":
         return {"script": "{ cat; cat <&3; } %s 3%s\n%s%s" % (op1, op2, raw1, raw2), "expected": doc1 + doc2,
                 "bsnl": bs1 or bs2, "shape": shape}
@@ -812,12 +853,11 @@ MOVE_CASES = [
 def run_hd(shell_argv, case, d, executable=None):
     os.makedirs(d, exist_ok=True)
     env = {"PATH": "/usr/bin:/bin", "HOME": d, "LANG": "C", "TERM": "dumb"}
-    try:
-        p = subprocess.run(shell_argv + ["-c", "x='%s'; %s" % (XVAL, case["script"])], stdin=subprocess.DEVNULL,
-                           stdout=subprocess.PIPE, stderr=subprocess.PIPE, cwd=d, env=env, timeout=20, executable=executable)
-        return p.stdout.decode("utf-8", "replace"), p.stderr.decode("utf-8", "replace")[:300]
-    except subprocess.TimeoutExpired:
+    rc, out, err = run_group(shell_argv + ["-c", "x='%s'; %s" % (XVAL, case["script"])], 20, stdin=subprocess.DEVNULL,
+                             stdout=subprocess.PIPE, stderr=subprocess.PIPE, cwd=d, env=env, executable=executable)
+    if rc == "timeout":
         return "TIMEOUT", ""
+    return (out or b"").decode("utf-8", "replace"), (err or b"").decode("utf-8", "replace")[:300]
 
 
 def eval_hdproc_cases(ctx, cases, root):
@@ -906,7 +946,8 @@ def run(ctx):
                 "text + initial files. tokenizer level: first line with 1-3 here-document operators (<< / <<-, delimiter unquoted or quoted "
                 "in 5 ways) followed by bodies drawn from lines equal to / containing / prefixed by the delimiter, tabs, $, backslashes, "
                 "quotes; 8% end tag at end of input, 6% truncated; non-trivial = all; distinct by input text. here-documents at process level "
-                "(python oracle of bash's rules, kept only where real bash agrees with it): cat of 1-2 documents, plain / inside $( ) / inside a "
+                "(python oracle of bash's rules, kept only where real bash agrees with it): cat of 1-2 documents (two documents on one line: 70% "
+                "with different operators << / <<- and tab-indented bodies and end tags; same command or two commands), plain / inside $( ) / inside a "
                 "function, << and <<-, quoted and unquoted delimiters, bodies with $x, backslash forms, backslash-newline",
         "samples": [{"script": script_of(c)} for c in cases[:3]] + [{"tokenizer_input": c["input"]} for c in hcases[:2]],
         "distribution": dist,
